@@ -59,12 +59,12 @@ def grp3 (n : Nat) : String :=
 
 def thr (kind : String) (n : Nat) : String :=
   if kind == "grp3" then grp3 n else
-  let threads := if kind == "inv" then n - 1 else n
+  let threads := if kind == "inv" || kind == "invs" then n - 1 else n
   let c := runToEnd threads (kind == "sub" || kind == "grp" || kind == "grp3" || kind == "reap")
   let ran := (List.range threads).map c.ran
   let viaCopy := kind == "cpy" || kind == "cpd" || kind == "cpj" || kind == "sst"
   let fin := (List.range threads).map fun j => if viaCopy then copiesFin kind else if c.finished j then 1 else 0
-  let (ran, fin) := if kind == "inv" then (1 :: ran, 1 :: fin) else (ran, fin)
+  let (ran, fin) := if kind == "inv" || kind == "invs" then (1 :: ran, 1 :: fin) else (ran, fin)
   if c.cpos == Handover.CPos.done && c.bad.isNone then s!"ran={ones ran} fin={ones fin}" else "model-stuck"
 
 open Sync in
